@@ -17,9 +17,9 @@ CHECK = {
                      "across sync-committee period boundaries; bootstrap+Sync()+Advance() against a harness ConsensusAPI with a shadow client "
                      "as step-by-step reference",
         "runs": [
-            {"name": "verify", "run": "^TestC12_Verify$", "checks": {"quick": 400, "thorough": 2500}, "shards": {"quick": 8, "thorough": 16}},
-            {"name": "history", "run": "^TestC12_History$", "checks": {"quick": 60, "thorough": 700}, "shards": {"quick": 8, "thorough": 16}},
-            {"name": "sync", "run": "^TestC12_Sync$", "checks": {"quick": 50, "thorough": 500}, "shards": {"quick": 8, "thorough": 16}},
+            {"name": "verify", "run": "^TestC12_Verify$", "checks": {"quick": 350, "thorough": 2500}, "shards": {"quick": 8, "thorough": 16}},
+            {"name": "history", "run": "^TestC12_History$", "checks": {"quick": 50, "thorough": 700}, "shards": {"quick": 8, "thorough": 16}},
+            {"name": "sync", "run": "^TestC12_Sync$", "checks": {"quick": 45, "thorough": 500}, "shards": {"quick": 8, "thorough": 16}},
         ],
         "rule": "(a) verify: a store set through the exported field (any period incl. the ones around the altair/bellatrix fork epochs, next committee "
                 "known or not, optimistic ahead or not, also a store beyond slot 10^9) meets ONE update (full/finality/optimistic; altair/capella/deneb "
@@ -44,6 +44,7 @@ CHECK = {
             "signature slots; the dependency's Spec.ForkVersion maps Capella-era slots to the Deneb version and later slots to the Electra version "
             "(its mainnet config has no Electra epoch) - not exercised",
             "updates are applied only after they passed verification (what Sync/Advance do); applying unverified updates is not a caller behaviour",
+            "Sync()/Advance() stop at the first served object that fails verification (the shadow client of the sync sub-check mirrors that)",
             "BLS signatures are unique: 'valid for exactly the participating keys' is decided by comparing with the signature made by the summed secrets",
             "electra update containers are refused by the client before verification ('unknown update type') and are not generated",
             "the one-directional statement does not require honest objects to be accepted: that is only a health condition of the check "
